@@ -479,6 +479,11 @@ class C15(PropBase):
             for c in c08.PROP.gen(rng, "quick", focus=True):
                 c = dict(c, delegate="c08", kind="git:" + str(c.get("kind", "")))
                 out.append(c)
+            # the whole command: every journal file under the journal directory is input, also when the output directory
+            # is a sibling whose path is a string prefix of the journal directory's (run of the real binary, C14's runner)
+            import c14
+            for c in c14.PROP.outdir_prefix_cases():
+                out.append(dict(c, delegate="c14", kind="cli:outdir-prefix"))
         return out
 
     # ---- running
